@@ -53,9 +53,9 @@ def corpus():
     c['fac_DT'] = ('S', lambda v, l: lambda: datatype_factory('DT', '20200229', v, l).to_er7())
     c['fac_NM'] = ('S', lambda v, l: lambda: datatype_factory('NM', '12.5', v, l).to_er7())
     c['fac_TM'] = ('S', lambda v, l: lambda: datatype_factory('TM', '123045.12+0100', v, l).to_er7())
-    c['fac_ST'] = ('S', lambda v, l: lambda: datatype_factory('ST', 'a|b', v, l).to_er7())
+    c['fac_ST'] = ('S', lambda v, l: lambda: datatype_factory('ST', 'a|b#c\\L\\d', v, l).to_er7())
     c['fac_bad'] = ('S', lambda v, l: lambda: datatype_factory('NM', 'abc', v, l).to_er7())
-    c['st_er7'] = ('S', lambda v, l: lambda: st_of(v)('x\\y|z', highlights=((0, 1), (2, 3))).to_er7())
+    c['st_er7'] = ('S', lambda v, l: lambda: st_of(v)('x\\y|z#w', highlights=((0, 1), (2, 3))).to_er7())
     c['subcomp'] = ('M', lambda v, l: lambda: SubComponent(datatype='ST', value='x', version=v, validation_level=l).to_er7())
     c['component'] = ('M', lambda v, l: lambda: _comp(v, l))
     c['field'] = ('M', lambda v, l: lambda: _field(v, l))
@@ -154,10 +154,41 @@ def shallow_fingerprint():
     dicts, seqs = _WATCH
     h = 0
     for d in dicts:
-        h = hash((h, len(d), tuple(d), tuple(map(id, d.values()))))
+        h = hash((h, len(d), tuple(map(str, d)), tuple(map(id, d.values()))))
     for q in seqs:
         h = hash((h, len(q), tuple(map(id, q))))
     return h
+
+
+def snapshot_shared():
+    """shallow copy of every watched container (see _build_watch)"""
+    global _WATCH
+    if _WATCH is None:
+        _WATCH = _build_watch()
+    dicts, seqs = _WATCH
+    return [dict(d) for d in dicts], [list(q) if isinstance(q, list) else set(q) for q in seqs]
+
+
+def restore_shared(snap):
+    """put every watched container back to its snapshot content, so that each execution starts from the same
+    process-wide state (memoisation left behind by one execution must not shorten the next one)"""
+    dicts, seqs = _WATCH
+    sd, sq = snap
+    for d, c in zip(dicts, sd):
+        if len(d) != len(c) or any(d.get(k, d) is not v for k, v in c.items()):
+            for k in list(d):
+                if k not in c:
+                    del d[k]
+            for k, v in c.items():
+                if d.get(k, d) is not v:
+                    d[k] = v
+    for q, c in zip(seqs, sq):
+        if isinstance(q, list):
+            if len(q) != len(c) or any(a is not b for a, b in zip(q, c)):
+                q[:] = c
+        elif q != c:
+            q.clear()
+            q.update(c)
 
 
 def deep_digest(versions):
@@ -234,7 +265,40 @@ def install_gran(gran):
         sched.install()
 
 
+def cold_unit(v, k, res):
+    """controlled interleaving of the lazy import of a version library, in a fresh interpreter (mc/coldimport.py)"""
+    import json
+    import os
+    import subprocess
+    env = dict(os.environ, PYTHONHASHSEED='0')
+    p = subprocess.run([sys.executable, '-m', 'mc.coldimport', v, str(k)], cwd=common.VERIF, capture_output=True, text=True, timeout=300, env=env)
+    res.evaluations += 1
+    res.states += 1
+    res.enumerated += 1
+    res.transitions += 3
+    point = {'cold': [v, k]}
+    try:
+        out = json.loads(p.stdout.strip().splitlines()[-1])
+    except Exception:
+        raise HarnessError('cold import driver failed: %s %s' % (p.stdout[-300:], p.stderr[-300:]))
+    res.validated += 1
+    if out['point_reached']:
+        res.nontrivial += 1
+    if out['a'] != out['alone'] or out['b'] != out['alone']:
+        who = 'second-thread' if out['b'] != out['alone'] else 'importing-thread'
+        res.violation('cold-import|%s|result-differs' % who, 'v%s, first thread suspended while importing submodule %d: threads observed %r / %r, '
+                      'alone %r' % (v, k, out['a'], out['b'], out['alone']), point, 0)
+    else:
+        res.classes['cold-import:%s' % ('second thread waited' if out['b_finished_while_a_paused'] is False else
+                                        'second thread finished' if out['b_finished_while_a_paused'] else 'point not reached')] += 1
+    res.dims['cold import interleavings'] += 1
+
+
 def run_unit(unit, tier):
+    if unit[0] == 'cold':
+        res = Result()
+        cold_unit(unit[1], unit[2], res)
+        return res
     names, cfgs, bound, gran = unit
     res = Result()
     c = corpus()
@@ -248,19 +312,26 @@ def run_unit(unit, tier):
             return ('raise', type(e).__name__, str(e)[:200])
 
     # sequential baseline from the initial state, and again after the other bodies ran (non-initial state)
-    alone = [obs(m) for m in makers]
-    again = [obs(m) for m in makers]
+    snap0 = snapshot_shared()
+    alone = []
+    for m in makers:
+        restore_shared(snap0)
+        alone.append(obs(m))
+    restore_shared(snap0)
+    again = [obs(m) for m in makers]          # one after the other, state left behind by the previous ones included
+    restore_shared(snap0)
     hname = '+'.join(names) + '@' + '/'.join('%s,%s' % (v, 'S' if l == STRICT else 'T') for v, l in cfgs)
     pair = '+'.join(sorted(names))
     point = {'names': list(names), 'cfgs': [list(x) for x in cfgs], 'bound': bound, 'gran': gran}
     if alone != again:
-        res.violation('%s|sequential-state-dependence' % pair, 'running the bodies twice in one process gives different '
-                      'results: %r vs %r' % (alone, again), dict(point, choices=None), 0)
+        res.violation('%s|sequential-state-dependence' % pair, 'run one after the other in one process the bodies give %r, each '
+                      'alone gives %r' % (again, alone), dict(point, choices=None), 0)
+    snap = snapshot_shared()
     fp0 = shallow_fingerprint()
     versions = sorted({v for v, _ in cfgs})
     dd0 = deep_digest(versions)
     outcomes = set()
-    stats = {'n': 0, 'pre': 0, 'maxpts': 0}
+    stats = {'n': 0, 'pre': 0, 'maxpts': 0, 'wrote': 0}
 
     def on_exec(choices, results, ex):
         stats['n'] += 1
@@ -276,19 +347,31 @@ def run_unit(unit, tier):
                           '%s: under schedule %r thread(s) %r observed %r, alone %r' % (hname, compress(choices), bad,
                                                                                        [got[i] for i in bad], [alone[i] for i in bad]),
                           dict(point, choices=list(choices)), len(choices))
-        fp = shallow_fingerprint()
-        if fp != fp0:
-            res.violation('%s|shared-state-written' % pair, '%s: process-wide library state differs after schedule %r'
-                          % (hname, compress(choices)), dict(point, choices=list(choices)), len(choices))
-            # the initial state is gone: later executions of this harness would not start from it
-            return 'stop'
+        if shallow_fingerprint() != fp0:
+            # a body wrote process-wide state.  Not a violation by itself (a memo would do that): it is recorded, the
+            # state is put back so that the next execution starts where this one started, and the harness is explored
+            # once more with one more preemption at the lines that mention shared data (below).
+            stats['wrote'] += 1
+            restore_shared(snap)
+
+    def fresh_bodies():
+        restore_shared(snap)
+        return [m for m in makers]
 
     try:
-        n, capped = sched.explore(lambda: [m for m in makers], bound, on_exec)
+        n, capped = sched.explore(fresh_bodies, bound, on_exec)
+        if stats['wrote'] and bound < 2 and len(names) == 2:
+            install_gran('shared')
+            n2, capped2 = sched.explore(fresh_bodies, bound + 1, on_exec)
+            n += n2
+            res.dims['harnesses re-explored at bound+1 because a body writes shared state'] += 1
     except HarnessError:
         if not res.violations:
             raise
         n, capped = stats['n'], False
+    restore_shared(snap)
+    if stats['wrote']:
+        res.dims['harnesses whose bodies write process-wide state'] += 1
     if capped:
         raise HarnessError('exploration capped')
     if deep_digest(versions) != dd0:
@@ -316,7 +399,8 @@ def compress(choices):
 
 def run(tier, seed, extra):
     hs = harnesses(tier)
-    hs = common.rotate(hs, seed)
+    cold = [('cold', v, k) for v in (('2.5', '2.7', '2.3') if tier == 'quick' else common.VERSIONS) for k in ((0, 2, 5) if tier == 'quick' else range(6))]
+    hs = common.rotate(hs + cold, seed)
     extra['bounds'] = {'threads': '2 (3 for small bodies)',
                        'preemption_bound': {'small x small': 2 if tier == 'quick' else 3, 'x medium': 1,
                                             'large': 0 if tier == 'quick' else 1, '3 threads': 1 if tier == 'quick' else 2},
@@ -330,6 +414,9 @@ def run(tier, seed, extra):
 
 
 def replay(point, res):
+    if 'cold' in point:
+        cold_unit(point['cold'][0], point['cold'][1], res)
+        return
     c = corpus()
     install_gran(point.get('gran', 'line'))
     names, cfgs = point['names'], [tuple(x) for x in point['cfgs']]
@@ -352,5 +439,3 @@ def replay(point, res):
     pair = '+'.join(sorted(names))
     if got != alone:
         res.violation('%s|result-differs' % pair, 'replayed: %r vs alone %r' % (got, alone), point, 0)
-    if shallow_fingerprint() != fp0:
-        res.violation('%s|shared-state-written' % pair, 'replayed: process-wide state differs', point, 0)
